@@ -11,9 +11,12 @@ state, the generated state code (with backtrack elision and fall-through of fail
 calls exactly the action of the `candLe`-greatest match `Cand` — longest prefix, end-of-input
 match preferred, first accepting entry whose right context holds — after rewinding to it if a
 longer attempt died; and it reports an error only when there is no match at all. The flags the
-analysis computes are closed/sound for every graph. The language-level part (the DFA's accept
-lists are the rules' languages in rule order: Thompson + subset construction) is covered by the
-complete per-program comparison of DFAs — see the ledger in DESIGN.md (`C01_language_partial`).
+analysis computes are closed/sound for every graph. The language level — the accept list of
+the rule set's DFA after every word is exactly the rules whose regex denotes it, in rule order — is
+`C02_language` (Thompson + subset construction), and `simplify`/`add_dfa` preserve accept lists
+(`C02_simplify_preserves`, `Proofs/Simplify`). What is not yet a single theorem is the composition of
+these stages through `lexer()` into one end-to-end statement; the per-program comparison of the
+model's machine with the dumped machine (sound: `C02_comparison_sound`) covers that glue on every run.
 -/
 namespace Lexgen
 variable {σ τ ε : Type}
